@@ -327,6 +327,13 @@ func (c *RecCM) Submitted() (map[types.BlockID]bool, uint64) {
 	return out, c.maxHeight
 }
 
+// SubmittedCount returns the number of distinct blocks handed to the manager.
+func (c *RecCM) SubmittedCount() int {
+	c.mu.Lock()
+	defer c.mu.Unlock()
+	return len(c.submitted)
+}
+
 // Calls returns (AddBlocks calls, AddValidatedV2Blocks calls, failed calls).
 func (c *RecCM) Calls() (add, validated, errs int) {
 	c.mu.Lock()
